@@ -444,7 +444,7 @@ func ZZ_C03_lex_structured() {
 	k := zzChoice("k", zzParam("K", 4)+1)
 	mid := zzBytes("mid", k)
 	var body []byte
-	switch zzChoice("shape", 5) {
+	switch zzChoice("shape", 7) {
 	case 0: // "…"
 		body = append(append([]byte{'"'}, mid...), '"')
 	case 1: // """…"""
@@ -455,6 +455,11 @@ func ZZ_C03_lex_structured() {
 		body = append(append([]byte{'#'}, mid...), []byte("\nab")...)
 	case 4: // -1…   numbers with free tail
 		body = append([]byte("-1"), mid...)
+	case 5: // "\uXXXX…"  four arbitrary bytes in the hex positions of a unicode escape
+		zzAssume(k <= 1)
+		body = append(append(append([]byte(`"\u`), zzBytes("hex", 4)...), mid...), '"')
+	case 6: // "\…"  arbitrary bytes after a backslash
+		body = append(append([]byte(`"\`), mid...), '"')
 	}
 	zzCompareTokens(body, 0, true)
 	zzCover("compared")
